@@ -309,8 +309,11 @@ def wireless(ck, mon, coq_in):
         hosts = [n for n in nodes.values() if type(n).__name__.lower() in world.HOSTS]
         ips = [str(h.network_interface[1].ip_address) for h in hosts]
         for t in range(ck.n(25, 120)):
-            for f in air.frequencies.values():
-                f.data_rate_bps = rng.choice([0.5, 1.0, 1.5, 2.0, 3.0, 1000.0]) * 0.0052 * 1024 * 1024
+            # the channel capacity is changed between ticks through the public API: ample while the first traffic flows, then
+            # of the order of one frame (a capacity looked up once and kept would let the old, larger one through)
+            import contextlib, io
+            with contextlib.redirect_stdout(io.StringIO()):
+                air.set_frequency_max_capacity_mbps({k: (1000.0 if t == 0 else rng.choice([0.5, 1.0, 1.5, 2.0, 3.0, 1000.0])) * 0.0052 for k in air.frequencies})
             mon.note(scenario="wireless_wan", tick=t)
             game.pre_timestep()
             for _ in range(rng.randint(1, 3)):
